@@ -941,7 +941,9 @@ fn gen_font(rng: &mut Rng) -> (Vec<u8>, Vec<u8>, usize, String) {
             tt = mine.clone();
         }
         // other tables: known tags, arbitrary tags, shared tables
-        let nother = rng.below(5) as usize;
+        // a member without outlines still carries data: the data block is never empty, so a
+        // misaligned Brotli stream (damaged directory) cannot decompress to it by accident
+        let nother = if truetype { rng.below(5) } else { 1 + rng.below(4) } as usize;
         for _ in 0..nother {
             if fi > 0 && !shared.is_empty() && rng.chance(1, 2) {
                 let s = *rng.pick(&shared);
@@ -951,14 +953,20 @@ fn gen_font(rng: &mut Rng) -> (Vec<u8>, Vec<u8>, usize, String) {
                 continue;
             }
             let tag = if rng.chance(2, 3) {
-                tag_of(*rng.pick(&["cmap", "name", "OS/2", "post", "cvt ", "fpgm", "prep", "CFF ", "GSUB", "GPOS", "Sill", "Feat", "kern"]))
+                // any of the 63 known tags except the six that steer the reconstruction
+                loop {
+                    let t = tag_of(*rng.pick(&KNOWN_TAGS));
+                    if ![GLYF, LOCA, HMTX, HEAD, MAXP, HHEA].contains(&t) {
+                        break t;
+                    }
+                }
             } else {
                 u32::from_be_bytes([b'a' + rng.below(26) as u8, b'A' + rng.below(26) as u8, b'0' + rng.below(10) as u8, b' '])
             };
             if mine.iter().any(|m| tabs[*m].tag == tag) {
                 continue;
             }
-            let d = { let n = rng.below(24) as usize; rng.bytes(n) };
+            let d = { let n = (if truetype { 0 } else { 1 }) + rng.below(24) as usize; rng.bytes(n) };
             mine.push(tabs.len());
             shared.push(tabs.len());
             tabs.push(Tab { tag, data: d.clone(), orig_length: d.len() as u32, transformed: false, version: 0, expect: Some(d) });
